@@ -12,6 +12,7 @@ import Pdpy11.Driver.Expr
 import Pdpy11.Driver.LineCol
 import Pdpy11.Driver.State
 import Pdpy11.Driver.Cli
+import Pdpy11.Driver.Asm
 namespace Pdpy11.Driver
 
 def handle (line : String) : String :=
@@ -42,6 +43,7 @@ def handle (line : String) : String :=
     | "linecol" => handleLineCol args
     | "state" => handleState args
     | "cli" => handleCli args
+    | "asm" => handleAsm args
     | "ping" => "pong"
     | _ => "bad-op"
 
